@@ -173,6 +173,26 @@ pub fn run(ctx: &mut Ctx) -> (&'static str, String, bool) {
                     continue;
                 }
                 let mut frame = img.frame.clone();
+                // 4-byte identifiers a peer may legitimately send but the typed API never produces: zero,
+                // built-in names inside mod lists, lower-case / shifted names ...
+                if i % 2 == 1 {
+                    const IDS: [[u8; 4]; 8] = [[0, 0, 0, 0], *b"XFG\0", *b"BF1\0", *b"xfg\0", [0, b'X', b'F', b'G'], *b"AB1\0", *b"FXR\0", [b'X', b'F', 0, 0]];
+                    for f in &lay.fields {
+                        match &f.kind {
+                            Kind::Vehicle if frame.len() >= f.off + 4 => frame[f.off..f.off + 4].copy_from_slice(&r.pick(&IDS[..])[..]),
+                            Kind::List { elem, .. } if elem == "u32" => {
+                                let mut off = f.off;
+                                while off + 4 <= frame.len() {
+                                    if r.chance(1, 3) {
+                                        frame[off..off + 4].copy_from_slice(&r.pick(&IDS[..])[..]);
+                                    }
+                                    off += 4;
+                                }
+                            },
+                            _ => {},
+                        }
+                    }
+                }
                 // LFS-style and hostile variations: reserved bits, terminators, TextStart, counts...
                 let nmut = match i % 5 {
                     0 => 0,
